@@ -167,3 +167,195 @@ class SkipExisting(WriterContract):
         if out.exc is None:
             content, touched = out.value
             yield ("file left byte-for-byte untouched", content == b"<keep/>" and not touched)
+
+
+# ------------------------------------------------------------------------------ protobuf writers
+
+
+def pb_written(F, path):
+    """the written message with the date stamp removed (abstract tree, or bytes natively)"""
+    if F.native:
+        from commonroad.scenario_definition.protobuf_format.generated_scripts import commonroad_pb2
+
+        try:
+            data = open(path, "rb").read()
+        except OSError:
+            return None
+        m = commonroad_pb2.CommonRoad()
+        m.ParseFromString(data)
+        m.information.ClearField("date")
+        return m.SerializePartialToString()
+    fs = F.ctx.options.get("__fs__", {})
+    if path not in fs:
+        return None
+    from pyvc.pbmodel import copy_msg
+
+    root = copy_msg(fs[path][1].root)
+    info = root.vals.get("information")
+    if info is not None:
+        info.vals.pop("date", None)
+    return root
+
+
+def msg_eq(a, b):
+    from pyvc.pbmodel import PMsg, PRep
+
+    if a.desc is not b.desc or set(a.vals) != set(b.vals):
+        return z3.BoolVal(False)
+    conds = []
+    for k, va in a.vals.items():
+        vb = b.vals[k]
+        if isinstance(va, PMsg):
+            conds.append(msg_eq(va, vb) if isinstance(vb, PMsg) else z3.BoolVal(False))
+        elif isinstance(va, PRep):
+            if not isinstance(vb, PRep) or len(va.items) != len(vb.items):
+                return z3.BoolVal(False)
+            for x, y in zip(va.items, vb.items):
+                conds.append(msg_eq(x, y) if isinstance(x, PMsg) else scalar_eq(x, y))
+        else:
+            conds.append(scalar_eq(va, vb))
+    return conj(conds)
+
+
+def scalar_eq(x, y):
+    from pyvc.core import Sym
+
+    if type(x) is Sym or type(y) is Sym:
+        if isinstance(x, str) or isinstance(y, str):
+            return z3.BoolVal(False)
+        if (type(x) is Sym and x.ty is bool) or (type(y) is Sym and y.ty is bool):
+            return B(x) == B(y)
+        return R(x) == R(y)
+    return z3.BoolVal(type(x) is type(y) and x == y)
+
+
+def same_pb(F, a, b):
+    if a is None or b is None:
+        return False
+    return a == b if F.native else msg_eq(a, b)
+
+
+def n_repeated(m):
+    from pyvc.pbmodel import PMsg, PRep
+
+    n = 0
+    for v in m.vals.values():
+        if isinstance(v, PRep):
+            n += len(v.items) + sum(n_repeated(x) for x in v.items if isinstance(x, PMsg))
+        elif isinstance(v, PMsg):
+            n += n_repeated(v)
+    return n
+
+
+class PbWriterContract(RoundTrip):
+    prop = "C15"
+
+    def scenario(self, F):
+        from contracts.c02 import WEATHER, fits_int32
+
+        sc, pps = mk_scenario(F, ("static", "dynamic"), weather=WEATHER), mk_planning_problems(F)
+        fits_int32(F)
+        return sc, pps
+
+    def build(self, F):
+        sc, pps = self.scenario(F)
+        return {"sc": sc, "pps": pps, "args": []}
+
+
+@register
+class PbWriteSequence(PbWriterContract):
+    target = "commonroad.common.writer.file_writer_protobuf.ProtobufFileWriter.write_to_file"
+    case = "the same protobuf writer: write_to_file, write_scenario_to_file, write_to_file"
+    describe = "every document equals the one an identically constructed writer produces when used alone (date stamp aside)"
+
+    def invoke(self, F, inp):
+        mk = lambda: F.new(CommonRoadFileWriter, inp["sc"], inp["pps"], file_format=FileFormat.PROTOBUF)
+        w = mk()
+        p1, p2, p3 = out_path(F, "c15_1.pb"), out_path(F, "c15_2.pb"), out_path(F, "c15_3.pb")
+        F.method(w, "write_to_file", p1, OverwriteExistingFile.ALWAYS)
+        F.method(w, "write_scenario_to_file", p2, OverwriteExistingFile.ALWAYS)
+        F.method(w, "write_to_file", p3, OverwriteExistingFile.ALWAYS)
+        r_full, r_sc = out_path(F, "c15_rf.pb"), out_path(F, "c15_rs.pb")
+        F.method(mk(), "write_to_file", r_full, OverwriteExistingFile.ALWAYS)
+        F.method(mk(), "write_scenario_to_file", r_sc, OverwriteExistingFile.ALWAYS)
+        return [pb_written(F, p) for p in (p1, p2, p3, r_full, r_sc)]
+
+    def post(self, F, inp, out):
+        yield ("raises nothing", out.exc is None)
+        if out.exc is None:
+            d1, d2, d3, rf, rs = out.value
+            yield ("all documents were written", all(d is not None for d in out.value))
+            if all(d is not None for d in out.value):
+                yield ("first full document equals the reference", same_pb(F, d1, rf))
+                yield ("scenario-only document after a full write equals the reference (nothing left over, nothing twice)", same_pb(F, d2, rs))
+                yield ("full document after a scenario-only write equals the reference", same_pb(F, d3, rf))
+                if not F.native:
+                    yield ("same number of repeated entries (nothing emitted twice)", n_repeated(d2) == n_repeated(rs) and n_repeated(d3) == n_repeated(rf))
+
+
+@register
+class XmlThenPb(PbWriterContract):
+    target = "commonroad.common.writer.file_writer_protobuf.ProtobufFileWriter.__init__"
+    case = "an XML writer with another precision is constructed and used in between"
+    describe = "a writer of the other format, constructed and used in between, does not change what this writer writes"
+
+    def invoke(self, F, inp):
+        mk = lambda: F.new(CommonRoadFileWriter, inp["sc"], inp["pps"], file_format=FileFormat.PROTOBUF)
+        ref, w = mk(), mk()
+        pr, pw = out_path(F, "c15_r.pb"), out_path(F, "c15_w.pb")
+        F.method(ref, "write_to_file", pr, OverwriteExistingFile.ALWAYS)
+        x = F.new(CommonRoadFileWriter, inp["sc"], inp["pps"], decimal_precision=9, file_format=FileFormat.XML)
+        F.method(x, "write_to_file", out_path(F, "c15_x.xml"), OverwriteExistingFile.ALWAYS)
+        F.method(w, "write_to_file", pw, OverwriteExistingFile.ALWAYS)
+        return pb_written(F, pr), pb_written(F, pw)
+
+    summaries = ("float_to_str", "make_valid_orientation")
+
+    def post(self, F, inp, out):
+        yield ("raises nothing", out.exc is None)
+        if out.exc is None:
+            a, b = out.value
+            yield ("identical to the document of an identically constructed writer used alone", same_pb(F, a, b))
+
+
+for _fmt in (FileFormat.XML, FileFormat.PROTOBUF):
+
+    @register
+    class SkipExistingDefaultName(WriterContract):
+        target = "commonroad.common.writer.file_writer_interface.FileWriter._handle_file_path"
+        case = "overwrite mode SKIP, default file name, %s" % _fmt.name
+        fmt = _fmt
+        describe = "with filename=None the name derived from the scenario id is protected by SKIP just like an explicit one"
+
+        def scenario(self, F):
+            if self.fmt is FileFormat.PROTOBUF:
+                return PbWriterContract.scenario(self, F)
+            return WriterContract.scenario(self, F)
+
+        def build(self, F):
+            sc, pps = self.scenario(F)
+            d = scratch_dir("c15_cwd_")
+            name = os.path.join(d, "DEU_Muc-2_1_T-3-1" + self.fmt.value)
+            with open(name, "wb") as fh:
+                fh.write(b"<keep/>")
+            return {"sc": sc, "pps": pps, "dir": d, "path": name, "args": []}
+
+        def invoke(self, F, inp):
+            old = os.getcwd()
+            os.chdir(inp["dir"])
+            try:
+                w = F.new(CommonRoadFileWriter, inp["sc"], inp["pps"], file_format=self.fmt)
+                F.method(w, "write_to_file", None, OverwriteExistingFile.SKIP)
+                F.method(w, "write_scenario_to_file", None, OverwriteExistingFile.SKIP)
+                content = open(inp["path"], "rb").read()
+                fs = {} if F.native else F.ctx.options.get("__fs__", {})
+                touched = [k for k in fs if os.path.basename(str(k)) == os.path.basename(inp["path"])]
+            finally:
+                os.chdir(old)
+            return content, touched
+
+        def post(self, F, inp, out):
+            yield ("raises nothing", out.exc is None)
+            if out.exc is None:
+                content, touched = out.value
+                yield ("file left byte-for-byte untouched", content == b"<keep/>" and not touched)
